@@ -742,7 +742,8 @@ pub fn c13(rec: &mut Rec, lm: &Landmarks, rng: &mut Rng, thorough: bool) {
         "2020-01-01T00:60:00", "JD NaN TAI", "SEC inf TAI", "MJD -inf UTC", "SEC 1e400 TT", "JD 123 €a", "éééé", "-€", "SEC 12.5 GPST", "2020-01-01T00:00:00.1234567891 UTC",
         "2020-01-01T00:00:00.0000000005 UTC", "2020-01-01T00:00:00.0000000000 UTC", "2020-01-01T00:00:00.00000000000000000001", "2020-01-01T00:00:00.000000000",
         "2020-01-01T00:00:00.9999999999Z", "2020-01-01T00:00:00.0000000001+01:00",
-        "%Y%Y%Y%Y%Y%Y%Y%Y%Y%Y%Y%Y%Y%Y%Y%Y", "%Y%Y%Y%Y%Y%Y%Y%Y%Y%Y%Y%Y%Y%Y%Y%Y%Y", "03 2020", "2147483647-01-01", "99999999999-01-01T00:00:00",
+        "%Y%Y%Y%Y%Y%Y%Y%Y%Y%Y%Y%Y%Y%Y%Y%Y", "%Y%Y%Y%Y%Y%Y%Y%Y%Y%Y%Y%Y%Y%Y%Y%Y%Y", "03 2020", "2147483647-01-01", "99999999999-01-01T00:00:00", "2147483647-12-31T23:59:00", "2147483647-12-31T23:59:60 TAI", "2147483647-06-30T23:59:60",
+        "-2147483648-12-31T23:59:59", "2147483646-12-31T23:59:59 UTC", "5885416-12-31T23:59:59", "5885417-01-01T00:00:00",
         // well-formed, out of range: every field at its first invalid value
         "2017-01-14T00:31:55+01:60", "2017-01-14T00:31:55-24:00", "2017-01-14T00:31:55+23:59", "2017-01-14T24:31:55", "2017-01-14T00:31:55.5+00:60 TAI",
         "2017-00-14T00:31:55", "2017-01-00T00:31:55", "2017-01-32T00:31:55", "2017-06-31T00:31:55", "2019-02-29T00:31:55 TT", "2100-02-29T00:00:00",
@@ -906,7 +907,7 @@ pub fn c13(rec: &mut Rec, lm: &Landmarks, rng: &mut Rng, thorough: bool) {
 // ------------------------------------------------------------------ C19
 
 pub const TOKS: [&str; 14] = ["%Y", "%m", "%d", "%H", "%M", "%S", "%f", "%j", "%A", "%a", "%B", "%b", "%T", "%z"];
-pub const SEPS: [&str; 9] = ["", "-", ":", " ", ", ", "T", ".", "/", "--"];
+pub const SEPS: [&str; 11] = ["", "-", ":", " ", ", ", "T", ".", "/", "--", "Z", "_Z"];
 
 fn render_ev(m: &mut EM, fmt: &str, how: u8, off: Duration, to: TimeScale) -> Option<String> {
     let a = m.e;
@@ -1074,7 +1075,8 @@ pub fn c19(rec: &mut Rec, lm: &Landmarks, rng: &mut Rng, thorough: bool) {
         let times = ["%H:%M:%S", "%H:%M:%S.%f", "%S:%M:%H", "%H %M %S %f"];
         for d in dates {
             for t in times {
-                for glue in ["T", " ", ", "] {
+                // (any ASCII separator: 'Z' and 'x' are letters, which may stand between two numeric fields)
+                for glue in ["T", " ", ", ", "Z", "x", "Z "] {
                     v.push(format!("{d}{glue}{t}"));
                     v.push(format!("{d}{glue}{t} %T"));
                     v.push(format!("{t}{glue}{d}"));
